@@ -122,13 +122,92 @@ fn nt_c12(l: &[&'static str], _e: &Ev, _d: &DiffResult) -> bool {
     has(l, "get_after_remove") && l.iter().filter(|x| **x == "insert").count() >= 4
 }
 
+/// `==` and the map must agree on every pair of keys, whatever `==` answers: the program prints only
+/// the truth value of "k2 denotes k1's entry exactly when k1 == k2", so no model of equality (range
+/// identity and the interpreter's range cache included) is needed to judge it.
+fn key_pairs_case(bytes: &[u8]) -> String {
+    use crate::rd::Rd;
+    let mut rd = Rd::new(bytes, 2_000);
+    const KEYS: &[&str] = &[
+        "1", "1.0", "(2 - 1)", "0", "-0", "(0 * -1)", "(0 / 0)", "true", "false", "nil", "\"a\"", "(\"\" + \"a\")", "\"ab\"[0]", "\"\"",
+        "(1, 2)", "(1, (2,))", "(2, 1)", "()", "(0,)", "(-0,)", "(nil,)", "((),)", "(1, \"a\")", "String", "Vec", "\"Vec\"", "Error",
+        "(0..3)", "(3..0)", "(0..0)", "(1..1)", "((0..3), 1)", "((3..0), 1)",
+    ];
+    let mut s = String::new();
+    let pairs = 1 + rd.below(4);
+    for p in 0..pairs {
+        let (k1, k2) = if rd.chance(1, 2) {
+            // a range pair: equal bounds, built before and after 0-12 other ranges, so that the second
+            // may or may not be the same object as the first
+            let a = rd.below(4) as i64;
+            let b = rd.below(5) as i64;
+            let wrap = rd.below(3);
+            let lit = match wrap {
+                0 => format!("({}..{})", a, b),
+                1 => format!("(({}..{}), 1)", a, b),
+                _ => format!("(\"k\", ({}..{}))", a, b),
+            };
+            (lit.clone(), lit)
+        } else {
+            (rd.pick_str(KEYS).to_string(), rd.pick_str(KEYS).to_string())
+        };
+        let churn = rd.below(13);
+        s.push_str(&format!("var a{} = {};\nvar m{} = {{}};\nm{}.insert(a{}, \"first\");\n", p, k1, p, p, p));
+        if churn > 0 {
+            let items: Vec<String> = (0..churn).map(|i| format!("({}..{})", 40 + p * 20 + i, 41 + p * 20 + i)).collect();
+            s.push_str(&format!("var churn{} = [{}];\n", p, items.join(", ")));
+        }
+        s.push_str(&format!("var b{} = {};\nvar same{} = a{} == b{};\n", p, k2, p, p, p));
+        s.push_str(&format!("print(m{}.has_key(b{}) == same{});\n", p, p, p));
+        s.push_str(&format!("print((m{}.get(b{}) == \"first\") == same{});\n", p, p, p));
+        s.push_str(&format!("m{}.insert(b{}, \"second\");\nprint((m{}.len() == 1) == same{});\n", p, p, p, p));
+        s.push_str(&format!("print(m{}.has_key(a{}) == (a{} == a{}));\n", p, p, p, p));
+        s.push_str(&format!("print(({{(a{}, 1): 1}}.has_key((b{}, 1))) == ((a{}, 1) == (b{}, 1)));\n", p, p, p, p));
+        s.push_str(&format!("print((m{}.keys().len() == 1) == same{});\n", p, p));
+        // a key that equals itself is found and removed again (leaving nothing if it was a's entry, a's
+        // entry otherwise); one that does not (NaN) was stored as an entry nothing can find
+        s.push_str(&format!(
+            "m{p}.remove(b{p});\nprint(((b{p} == b{p}) && ((m{p}.len() == 0) == same{p})) || (!(b{p} == b{p}) && m{p}.len() == 2));\n",
+            p = p
+        ));
+    }
+    s.push_str("print(\"end\");\n");
+    s
+}
+
+fn key_pairs_run(bytes: &[u8], ctx: &mut crate::engine::CaseCtx) -> crate::engine::Verdict {
+    use crate::engine::Verdict;
+    use crate::yrun::{self, End, RunCfg};
+    let src = key_pairs_case(bytes);
+    let o = yrun::run_source(&src, &RunCfg::default());
+    let fail = |sig: &str, what: String| Verdict::Fail { sig: sig.to_string(), detail: format!("{}\noutput {:?}\n{}", what, o.out, src) };
+    match &o.end {
+        End::Panic(p) => return fail(&format!("panic:{}", crate::props::c03::sig_of_panic(p)), format!("yarel panicked: {}", p)),
+        End::Err(k, m) => return fail("key-pair-program-failed", format!("only hashable keys are used, yet the run ended with {:?}: {:?}", k, m)),
+        End::Ok(_) => {}
+    }
+    if o.out.last().map(|s| s.as_str()) != Some("end") {
+        return fail("key-pair-program-failed", "the program did not reach its end".into());
+    }
+    if let Some(i) = o.out.iter().position(|l| l != "true" && l != "end") {
+        return fail("map-disagrees-with-equality", format!("print #{} is {:?}: the map and the == operator disagree about whether two keys are the same key", i + 1, o.out[i]));
+    }
+    ctx.label("gen:key_pairs");
+    if src.contains("churn") {
+        ctx.label("gen:key_pair_after_range_churn");
+    }
+    Verdict::Pass { nontrivial: true, hash: crate::rd::fnv64(src.as_bytes()) }
+}
+
 pub fn c12() -> DiffProp {
+    let mut pairs = Fam::custom("key_pairs", Box::new(|_b: &[u8]| (crate::ast::Program { main: vec![], modules: vec![] }, vec![])), 20_000, 200_000, 60);
+    pairs.direct = Some((key_pairs_case, key_pairs_run));
     DiffProp {
         id: "C12",
-        families: vec![Fam::custom("map_history", Box::new(crate::gen_map::program), 100_000, 1_000_000, 200)],
-        rule: "cases: histories (up to 60 operations on two maps) of literal construction, insert, remove, get, has_key, clear, len, keys/values/items and map == over a per-history key pool drawn from 44 key expressions: equal keys built differently (1, 2-1, 0.5+0.5; 0, -0, 0*-1; \"ab\", \"a\"+\"b\", a slice; equal tuples and nested tuples built separately; tuples with 0 vs -0), hash-colliding tuples, NaN, booleans, nil, classes, ranges, and unhashable values; a sixth of the histories use up to 48 distinct numeric keys to force growth. Oracle: association-list map with the language's == (reference interpreter); enumerations compared as multisets; unhashable keys must give ValueError and leave the map unchanged (final full scan). Non-trivial: a lookup after a removal with >=4 inserts; distinct by program text.",
+        families: vec![Fam::custom("map_history", Box::new(crate::gen_map::program), 100_000, 1_000_000, 200), pairs],
+        rule: "cases: histories (up to 60 operations on two maps) of literal construction, insert, remove, get, has_key, clear, len, keys/values/items and map == over a per-history key pool drawn from 44 key expressions: equal keys built differently (1, 2-1, 0.5+0.5; 0, -0, 0*-1; \"ab\", \"a\"+\"b\", a slice; equal tuples and nested tuples built separately; tuples with 0 vs -0), hash-colliding tuples, NaN, booleans, nil, classes, ranges, and unhashable values; a sixth of the histories use up to 48 distinct numeric keys to force growth. Oracle: association-list map with the language's == (reference interpreter); enumerations compared as multisets; unhashable keys must give ValueError and leave the map unchanged (final full scan). Non-trivial: a lookup after a removal with >=4 inserts; distinct by program text. Family key_pairs: 1-4 pairs of hashable key expressions (33 expressions incl. equal numbers, zeros, NaN, strings, tuples, classes, ranges; half of the pairs are two ranges with equal bounds, bare or inside a tuple, built before and after 0-12 other ranges so that the second may or may not be the same object); the program prints only whether the map agrees with ==: has_key, get, insert-then-len, a tuple key wrapping each, keys().len(), remove-then-len, each compared with the truth value of k1 == k2; judged without the reference interpreter: every line must be true.",
         nontrivial: nt_c12,
-        floors: vec![("gen:insert", 50_000), ("gen:get_after_remove", 20_000), ("gen:enumerate", 5_000), ("gen:map_eq", 3_000), ("ev:err:ValueError", 5_000)],
+        floors: vec![("gen:insert", 50_000), ("gen:get_after_remove", 20_000), ("gen:enumerate", 5_000), ("gen:map_eq", 3_000), ("ev:err:ValueError", 5_000), ("gen:key_pairs", 10_000), ("gen:key_pair_after_range_churn", 5_000)],
         assumptions: vec!["at most two distinct ranges per history, so range identity (an 8-entry cache in yarel) coincides with structural equality"],
     }
 }
